@@ -213,6 +213,23 @@ def main(n: int, m: int, b: bool):
 ''']
 
 
+# a subroutine with a return inside a branch, called with arguments that become constants once the spec is known
+F26_TEMPLATE = len(FILLED_SRCS)
+FILLED_SRCS += ['''
+@move
+def pick(flag: bool, x, y):
+    if flag:
+        return x
+    return y
+
+@move
+def main(n: int, m: int, b: bool):
+    z = pick(b, spec.get_static_trap(zone_id="A"), spec.get_static_trap(zone_id="B"))
+    gate.local_rz(0.5, z[0:1, :])
+    return n
+''']
+
+
 def canon_obj(o):
     """route-independent text of an event operand (filled grids included)"""
     if isinstance(o, (list, tuple)):
@@ -428,6 +445,12 @@ def run(ctx):
                     k = None
                     if i == F24_TEMPLATE and a[2] is False and "vac=" in got and "vac=" not in want:
                         k = "F24-view-equals-filled-view"
+                    elif i == F26_TEMPLATE and a[2] is True and route[4]:
+                        # the spec is known at compile time: kirin's constant propagation evaluates the call of `pick` to the
+                        # value of its LAST return, ignoring the return inside the branch
+                        k = "F26-constprop-ignores-early-return"
+                    elif i == F26_TEMPLATE and a[2] is True and (route[1] or route[5]):
+                        k = "F15-inlined-early-return"
                     ctx.fail(dict(case, args=list(a)), f"fixed-source program (compared route against route): events on route [{route_name(route)}] differ from the "
                                                        f"unfolded run-time-spec route: got={got[:300]} want={want[:300]}", key=k)
     for key in list(progs)[:2]:
